@@ -70,6 +70,12 @@ def _plan(draw, max_len, narrow=True):
     if draw(st.booleans()):
         pool = pool[:4]
     ngroups = 2
+    if kind == "i" and h == "mean" and draw(st.integers(0, 2)) == 0:
+        # integers whose sum does not fit into 64 bits although every value and the mean do
+        pool = [2**62, 2**62 + 1, 2**62 - 5, 3]
+    if kind == "f" and h == "sum" and draw(st.integers(0, 2)) == 0:
+        # magnitudes that swallow small addends, and an infinity: each group's sum is that group's alone
+        pool = [4e16, 1.0, 2.0, gen.INF, 0.5, 4e16]
     if kind in ("f", "i") and h in ("std", "var", "mean", "sum", "median", "quantile") and draw(st.integers(0, 4)) == 0:
         # a large common offset with a small spread: where one-pass formulas cancel catastrophically
         pool = [1e9 + 1, 1e9 + 2, 1e9 + 3, 1e9 + 3] if kind == "f" else [10**8 + 1, 10**8 + 2, 10**8 + 4]
